@@ -52,6 +52,12 @@ CLAIMED = {
    note="Trusted: Lean kernel; the go/ast extractor and the list of callees known to be pure; the file system and the generators themselves are abstract (only 'may write' is modelled).",
    technique="Lean 4 proof over a regenerated call list + snapshot differential on the CLI",
    design="§7 C11"),
+ "C07": dict(
+   engine="proto",
+   text="Kernel-checked bisimulations: the numeric state machines of the generated C++ and Python reader/writer base classes (transliterated from the generators) against descriptive specification machines, for every protocol shape and every finite call sequence, with the data-dependent outcomes of reads as adversarial parameters; close is accepted exactly at the end. Tied to the generated code by driving the generated C++ and Python base classes with scripted stubs: exhaustive short call sequences for all small shapes, random long ones, in-order runs, 130-step protocols; the index of the first rejected call must match.",
+   note="Trusted: Lean kernel (+ grind's use of propext/Classical.choice/Quot.sound); hand transliteration of the generated state checks (tied by the exhaustive runs); MATLAB base classes are not executed (no MATLAB) and not covered; behaviour after a successful close() is unspecified and not compared.",
+   technique="Lean 4 proof (bisimulation, lifted to runs by induction) + exhaustive/random differential on generated base classes",
+   design="§7 C07"),
 }
 NOT_YET = "machinery for this property is not built yet in this round (see DESIGN.md §10 build order)"
 checks, na = [], []
@@ -87,6 +93,8 @@ m = {
     "kind_free_text": "sorted sinks / map iteration as adversarial permutation; sites from harness/go/cmd/facts"},
    {"name": "cli", "path": "lean/YardlModel/Cli.lean", "serves_properties": ["C11"],
     "kind_free_text": "generateImpl as a fallible call sequence over an abstract FS; call list from harness/go/cmd/facts pipeline"},
+   {"name": "proto", "path": "lean/YardlModel/Proto.lean", "serves_properties": ["C07"],
+    "kind_free_text": "reader/writer step-order state machines (implementation encodings vs specification positions)"},
    {"name": "wire", "path": "lean/YardlModel/Wire.lean", "serves_properties": ["C01", "C03", "C15", "C16", "C17"],
     "kind_free_text": "Lean model of the binary format + buffered stream implementations; line-protocol driver lean/Main/WireDriver.lean"},
  ],
